@@ -54,14 +54,14 @@ type site struct {
 type funcKey = *types.Func
 
 type analyzer struct {
-	fset    *token.FileSet
-	pkgs    []*packages.Package
-	callees map[funcKey]map[funcKey]bool // static call graph over goflow functions
-	bodyOf  map[funcKey]bool
-	streamy map[funcKey]bool     // consumes uuid / clock / random stream (transitively)
-	methods map[string][]funcKey // goflow methods by name (for interface calls)
-	uses    map[funcKey]int      // references (calls and method values) per function, non-test goflow code
-	ifaceUses map[string]int     // references to interface methods, by method name
+	fset      *token.FileSet
+	pkgs      []*packages.Package
+	callees   map[funcKey]map[funcKey]bool // static call graph over goflow functions
+	bodyOf    map[funcKey]bool
+	streamy   map[funcKey]bool     // consumes uuid / clock / random stream (transitively)
+	methods   map[string][]funcKey // goflow methods by name (for interface calls)
+	uses      map[funcKey]int      // references (calls and method values) per function, non-test goflow code
+	ifaceUses map[string]int       // references to interface methods, by method name
 }
 
 func fatal(f string, a ...any) {
@@ -641,10 +641,17 @@ type loopCtx struct {
 	valObj       types.Object
 	effects      map[string]bool
 	namedResults bool
+	defs         map[types.Object]ast.Expr  // locals of the body -> the expression they are initialised with (nil: none / several)
+	written      map[types.Object]bool      // variables declared outside the body that the body assigns to
+	ownRead      map[*ast.Ident]bool        // occurrences that belong to the variable's own accumulation statement
+	flagConsts   map[string]map[string]bool // target -> the constants assigned to it
+	retConsts    map[string]bool            // the constant tuples returned
 }
 
 func (a *analyzer) loopEffects(info *types.Info, encl ast.Node, loop *ast.RangeStmt, named bool) []string {
-	c := &loopCtx{a: a, info: info, encl: encl, loop: loop, effects: map[string]bool{}, namedResults: named}
+	c := &loopCtx{a: a, info: info, encl: encl, loop: loop, effects: map[string]bool{}, namedResults: named,
+		defs: map[types.Object]ast.Expr{}, written: map[types.Object]bool{}, ownRead: map[*ast.Ident]bool{},
+		flagConsts: map[string]map[string]bool{}, retConsts: map[string]bool{}}
 	if id, ok := loop.Key.(*ast.Ident); ok && id.Name != "_" {
 		c.keyObj = objOf(info, id)
 	}
@@ -655,7 +662,20 @@ func (a *analyzer) loopEffects(info *types.Info, encl ast.Node, loop *ast.RangeS
 	if loop.Tok == token.ASSIGN {
 		c.add("EAssignOuter")
 	}
+	c.collectDefs()
 	c.walk(loop.Body, 0)
+	// x = c1 in one place and x = c2 in another: which one is last depends on the order
+	for _, cs := range c.flagConsts {
+		if len(cs) > 1 {
+			delete(c.effects, "EFlagSet")
+			c.add("EAssignOuter")
+		}
+	}
+	if len(c.retConsts) > 1 {
+		delete(c.effects, "EReturnConst")
+		c.add("EReturnValue")
+	}
+	c.loopCarried()
 	out := make([]string, 0, len(c.effects))
 	for e := range c.effects {
 		out = append(out, e)
@@ -679,6 +699,146 @@ func (c *loopCtx) local(o types.Object) bool {
 		return false
 	}
 	return o.Pos() >= c.loop.Body.Pos() && o.Pos() <= c.loop.Body.End()
+}
+
+func isRefType(t types.Type) bool {
+	if t == nil {
+		return true
+	}
+	switch t.Underlying().(type) {
+	case *types.Pointer, *types.Map, *types.Slice, *types.Chan, *types.Interface, *types.Signature:
+		return true
+	}
+	return false
+}
+
+// owned: a local of the body that cannot alias state outliving the iteration: either its type holds no
+// reference at top level, or it is initialised by a fresh allocation (make, new, composite literal, &T{...})
+func (c *loopCtx) owned(o types.Object) bool {
+	if !c.local(o) {
+		return false
+	}
+	if !isRefType(o.Type()) {
+		return true
+	}
+	init, ok := c.defs[o]
+	if !ok || init == nil {
+		return false
+	}
+	return c.freshExpr(init)
+}
+
+func (c *loopCtx) freshExpr(e ast.Expr) bool {
+	switch x := ast.Unparen(e).(type) {
+	case *ast.CompositeLit, *ast.FuncLit, *ast.BasicLit:
+		return true
+	case *ast.UnaryExpr:
+		if x.Op == token.AND {
+			_, ok := ast.Unparen(x.X).(*ast.CompositeLit)
+			return ok
+		}
+	case *ast.CallExpr:
+		if id, ok := ast.Unparen(x.Fun).(*ast.Ident); ok {
+			if b, ok := c.info.Uses[id].(*types.Builtin); ok && (b.Name() == "make" || b.Name() == "new") {
+				return true
+			}
+		}
+	}
+	return false
+}
+
+// collectDefs records, for every variable declared in the body, its initialiser (nil when there are several
+// assignments or none)
+func (c *loopCtx) collectDefs() {
+	set := func(id *ast.Ident, e ast.Expr) {
+		o := c.info.Defs[id]
+		if o == nil {
+			return
+		}
+		if _, dup := c.defs[o]; dup {
+			c.defs[o] = nil
+			return
+		}
+		c.defs[o] = e
+	}
+	ast.Inspect(c.loop.Body, func(n ast.Node) bool {
+		switch x := n.(type) {
+		case *ast.AssignStmt:
+			for i, l := range x.Lhs {
+				id, ok := l.(*ast.Ident)
+				if !ok {
+					continue
+				}
+				if x.Tok == token.DEFINE && c.info.Defs[id] != nil {
+					if len(x.Rhs) == len(x.Lhs) {
+						set(id, x.Rhs[i])
+					} else {
+						set(id, nil)
+					}
+				} else if o := c.info.Uses[id]; o != nil && c.local(o) {
+					c.defs[o] = nil // re-assigned later: unknown
+				}
+			}
+		case *ast.ValueSpec:
+			for i, id := range x.Names {
+				if i < len(x.Values) {
+					set(id, x.Values[i])
+				} else {
+					set(id, nil)
+				}
+			}
+		case *ast.RangeStmt:
+			for _, l := range []ast.Expr{x.Key, x.Value} {
+				if id, ok := l.(*ast.Ident); ok && x.Tok == token.DEFINE {
+					set(id, nil)
+				}
+			}
+		}
+		return true
+	})
+}
+
+// loopCarried: the body reads a variable that it also writes, other than in that variable's own accumulation
+// statement: the value read depends on which keys were visited before
+func (c *loopCtx) loopCarried() {
+	if len(c.written) == 0 {
+		return
+	}
+	ast.Inspect(c.loop.Body, func(n ast.Node) bool {
+		if ix, ok := n.(*ast.IndexExpr); ok && c.isKey(ix.Index) {
+			// dst[k] with k the loop key: only this iteration touches that element (keys are distinct)
+			if r := rootIdent(ix.X); r != nil {
+				c.ownRead[r] = true
+			}
+		}
+		id, ok := n.(*ast.Ident)
+		if !ok {
+			return true
+		}
+		if o := c.info.Uses[id]; o != nil && c.written[o] && !c.ownRead[id] {
+			c.add("ELoopCarried")
+		}
+		return true
+	})
+}
+
+// noteWrite records an assignment target rooted at a variable declared outside the body
+func (c *loopCtx) noteWrite(l ast.Expr) {
+	if r := rootIdent(l); r != nil {
+		o := objOf(c.info, r)
+		if o != nil && !c.local(o) && o != c.keyObj && o != c.valObj {
+			if _, isVar := o.(*types.Var); isVar {
+				c.written[o] = true
+				c.ownRead[r] = true
+			}
+		}
+	}
+}
+
+func (c *loopCtx) noteOwnRead(e ast.Expr) {
+	if r := rootIdent(e); r != nil {
+		c.ownRead[r] = true
+	}
 }
 
 func rootIdent(e ast.Expr) *ast.Ident {
@@ -737,6 +897,14 @@ func isConstExpr(info *types.Info, e ast.Expr) bool {
 		return isConstExpr(info, x.X)
 	}
 	return false
+}
+
+func constText(info *types.Info, e ast.Expr) string {
+	e = ast.Unparen(e)
+	if tv, ok := info.Types[e]; ok && tv.Value != nil {
+		return tv.Value.ExactString()
+	}
+	return types.ExprString(e)
 }
 
 func isErrorType(t types.Type) bool {
@@ -911,6 +1079,13 @@ func (c *loopCtx) returnKind(r *ast.ReturnStmt) string {
 	if len(r.Results) == 0 && c.namedResults {
 		kind = "EReturnValue" // naked return: named results may carry loop state
 	}
+	if kind == "EReturnConst" {
+		parts := make([]string, len(r.Results))
+		for i, e := range r.Results {
+			parts[i] = constText(c.info, e)
+		}
+		c.retConsts[strings.Join(parts, ",")] = true
+	}
 	return kind
 }
 
@@ -949,9 +1124,10 @@ func (c *loopCtx) callEffects(ce *ast.CallExpr, stmt bool) {
 			switch b.Name() {
 			case "delete":
 				if len(ce.Args) == 2 {
-					if r := rootIdent(ce.Args[0]); r != nil && c.local(objOf(info, r)) {
+					if r := rootIdent(ce.Args[0]); r != nil && c.owned(objOf(info, r)) {
 						return
 					}
+					c.noteWrite(ce.Args[0])
 					if c.isKey(ce.Args[1]) {
 						c.add("EMapDeleteKey")
 					} else {
@@ -985,13 +1161,13 @@ func (c *loopCtx) callEffects(ce *ast.CallExpr, stmt bool) {
 	if isStringBuildCall(fn) {
 		// only matters if the builder outlives the iteration
 		if sel, ok := fun.(*ast.SelectorExpr); ok {
-			if r := rootIdent(sel.X); r != nil && c.local(objOf(info, r)) {
+			if r := rootIdent(sel.X); r != nil && c.owned(objOf(info, r)) {
 				return
 			}
 		}
 		if fn.Pkg() != nil && fn.Pkg().Path() == "fmt" {
 			if len(ce.Args) > 0 {
-				if r := rootIdent(ce.Args[0]); r != nil && c.local(objOf(info, r)) {
+				if r := rootIdent(ce.Args[0]); r != nil && c.owned(objOf(info, r)) {
 					return
 				}
 			}
@@ -1004,8 +1180,8 @@ func (c *loopCtx) callEffects(ce *ast.CallExpr, stmt bool) {
 		if sel, ok := fun.(*ast.SelectorExpr); ok {
 			if r := rootIdent(sel.X); r != nil {
 				o := objOf(info, r)
-				if c.local(o) {
-					return // method on a per-iteration local
+				if c.owned(o) {
+					return // method on a per-iteration local that cannot alias outer state
 				}
 			}
 		}
@@ -1067,9 +1243,10 @@ func (c *loopCtx) assignTarget(l ast.Expr, r ast.Expr, tok token.Token) {
 	case *ast.IndexExpr:
 		ct := info.TypeOf(x.X)
 		_, isMapT := ct.Underlying().(*types.Map)
-		if c.local(rootObj) {
+		if c.owned(rootObj) {
 			return
 		}
+		c.noteWrite(l)
 		if isMapT || isSliceOrArray(ct) {
 			if c.isKey(x.Index) {
 				c.add("EMapWriteKey")
@@ -1090,21 +1267,18 @@ func (c *loopCtx) assignTarget(l ast.Expr, r ast.Expr, tok token.Token) {
 		if rootObj != nil && (rootObj == c.keyObj || rootObj == c.valObj) {
 			return
 		}
+		c.noteWrite(l)
 		c.classifyScalar(l, r, tok)
 		return
 	case *ast.SelectorExpr, *ast.StarExpr:
-		if c.local(rootObj) {
-			// a local pointer may still alias outer state; only plain local structs are safe
-			if rootObj != nil {
-				if _, isPtr := rootObj.Type().Underlying().(*types.Pointer); !isPtr {
-					return
-				}
-			}
+		if c.owned(rootObj) {
+			return
 		}
 		if rootObj != nil && rootObj == c.valObj {
 			c.add("EElemWrite")
 			return
 		}
+		c.noteWrite(l)
 		c.classifyScalar(l, r, tok)
 		return
 	}
@@ -1143,12 +1317,14 @@ func (c *loopCtx) classifyScalar(l ast.Expr, r ast.Expr, tok token.Token) {
 		if id, ok := ast.Unparen(ce.Fun).(*ast.Ident); ok {
 			if b, ok := info.Uses[id].(*types.Builtin); ok && b.Name() == "append" && len(ce.Args) > 0 &&
 				types.ExprString(ast.Unparen(ce.Args[0])) == ls {
+				c.noteOwnRead(ce.Args[0])
 				c.add("EAppend " + c.sortedAfter(ls))
 				return
 			}
 			if b, ok := info.Uses[id].(*types.Builtin); ok && (b.Name() == "max" || b.Name() == "min") {
 				for _, a := range ce.Args {
 					if types.ExprString(ast.Unparen(a)) == ls {
+						c.noteOwnRead(a)
 						k := accKind(lt)
 						if k == "EAccumFloat" {
 							k = "EAccumInt" // max/min are exact on floats (NaN aside)
@@ -1161,6 +1337,10 @@ func (c *loopCtx) classifyScalar(l ast.Expr, r ast.Expr, tok token.Token) {
 		}
 	}
 	if isConstExpr(info, r) {
+		if c.flagConsts[ls] == nil {
+			c.flagConsts[ls] = map[string]bool{}
+		}
+		c.flagConsts[ls][constText(info, r)] = true
 		c.add("EFlagSet")
 		return
 	}
@@ -1169,6 +1349,11 @@ func (c *loopCtx) classifyScalar(l ast.Expr, r ast.Expr, tok token.Token) {
 		if types.ExprString(ast.Unparen(be.X)) == ls || types.ExprString(ast.Unparen(be.Y)) == ls {
 			k := accKind(lt)
 			if k == "EStringBuild" || types.ExprString(ast.Unparen(be.X)) == ls || be.Op != token.SUB {
+				if types.ExprString(ast.Unparen(be.X)) == ls {
+					c.noteOwnRead(be.X)
+				} else {
+					c.noteOwnRead(be.Y)
+				}
 				c.add(k)
 				return
 			}
